@@ -523,16 +523,19 @@ func c04partA(c *drv.Ctx, rows []c04row, u *c04unit, bm []uint64, fail func(byte
 	r := rows[u.row]
 	n := u.n
 	seen := make(map[c04state]struct{}, 1024)
+	keyRep := func(r1, r2 uint64) (string, any) {
+		return fmt.Sprintf("a:row%d:n=%d:r1=%d:r2=%d", r.K, n, r1, r2),
+			map[string]any{"part": "c04", "section": "a", "n": n, "draw1": r1, "draw2": r2, "row": r.K, "P": r.P, "G": r.G, "N": r.N}
+	}
 	for r1 := uint64(0); r1+2 <= r.P; r1++ {
 		if c.Expired() {
 			return
 		}
 		for r2 := uint64(0); r2+1 <= r.P; r2++ {
 			c.Eval(1)
-			key := fmt.Sprintf("a:row%d:n=%d:r1=%d:r2=%d", r.K, n, r1, r2)
-			rep := map[string]any{"part": "c04", "section": "a", "n": n, "draw1": r1, "draw2": r2, "row": r.K, "P": r.P, "G": r.G, "N": r.N}
 			it, err, pan := c04new(n, r1, r2)
 			if pan != nil || err != nil || it == nil {
+				key, rep := keyRep(r1, r2)
 				fail('a', u.row, key, fmt.Sprintf("newRangeIterator(%d) with draws (%d,%d): err=%v panic=%v; a size in 1..2^32+60 must iterate", n, r1, r2, err, pan), rep)
 				c.Outcome("a:constructor-failed")
 				continue
@@ -558,6 +561,7 @@ func c04partA(c *drv.Ctx, rows []c04row, u *c04unit, bm []uint64, fail func(byte
 			c.Add("a_iterator_runs", 1)
 			c.Add("a_values_yielded", run.yielded)
 			if bad != "" {
+				key, rep := keyRep(r1, r2)
 				fail('a', u.row, key, fmt.Sprintf("n=%d draws=(%d,%d) [row %d: P=%d G=%d N=%d; effective generator %d, start %d]: %s", n, r1, r2, r.K, r.P, r.G, r.N, st.G, st.S, bad), rep)
 				c.Outcome("a:not-a-permutation")
 				continue
